@@ -3,8 +3,9 @@ package main
 // The rejection oracle: the property lists what must be REJECTED ("unknown type, nil sub-message,
 // out-of-range index/round/height, oversized bit array or part, inconsistent lengths"). For the
 // single-field mutations that produce exactly such a message - and only for those where the limit is a
-// constant of the repository, so that no judgement is involved - the delivery must end at the decoder
-// or with the sending peer stopped, and must not reach peer state, node state or the consensus queue.
+// constant of the repository, so that no judgement is involved - the delivery must end at the decoder,
+// with the sending peer stopped, or without any effect: it must not reach peer state, node state, the
+// consensus queue or a pool, and must not be answered.
 
 import (
 	"fmt"
@@ -105,6 +106,10 @@ func expectReject(cs *caseT) string {
 	return ""
 }
 
+// rejectedStage: the weakest reading of "rejected" - the message ended at the decoder, got its sender
+// stopped (also through a contained panic), or was accepted and then ignored without touching peer
+// state, node state, the consensus queue or any pool, and without an answer.
 func rejectedStage(stage string) bool {
-	return stage == "decode-error" || stage == "rejected-peer-stopped" || stage == "decode-error-peer-kept" || stage == "contained-panic"
+	return stage == "decode-error" || stage == "rejected-peer-stopped" || stage == "decode-error-peer-kept" || stage == "contained-panic" || stage == "accepted-no-effect" ||
+		stage == "tx:ignored-unknown-peer"
 }
